@@ -6,6 +6,7 @@ Copyright 2020 William W. Kimball, Jr. MBA MSIS
 from typing import Any, Dict, Optional
 
 from ruamel.yaml.comments import CommentedSeq, CommentedMap
+from ruamel.yaml.compat import check_anchorname_char
 
 from yamlpath.wrappers import NodeCoords
 
@@ -164,7 +165,11 @@ class Anchors:
         parentref = node_coord.parentref
         base_name = "id"
         if isinstance(parentref, str):
-            base_name = parentref
+            # Borrow the key's name but only its legal Anchor characters
+            # lest the document become impossible to dump.
+            base_name = "".join([
+                ch if check_anchorname_char(ch) else "_"
+                for ch in parentref]) or "id"
             if base_name not in known_anchors:
                 return base_name
 
